@@ -6,6 +6,7 @@ import (
 	"os"
 	"path/filepath"
 	"sort"
+	"strings"
 	"sync"
 	"time"
 
@@ -350,12 +351,28 @@ func (m *metadataAPI) CreateStream(ctx context.Context, req *proto.CreateStreamO
 		return status.New(codes.InvalidArgument, "no partitions provided")
 	}
 
+	// The stream name becomes part of the partitions' replication subjects
+	// and the name of the directory holding their logs. A name that can't be
+	// either would be committed and then fail to apply on every server.
+	if !isValidSubject(req.Stream.Name) || strings.ContainsRune(req.Stream.Name, 0) {
+		return status.New(codes.InvalidArgument, "stream name is invalid")
+	}
+
 	// The request may have been propagated to us, so make sure the partitions
 	// belong to the stream and their ids are unique. Otherwise the operation
 	// would be committed and then fail to apply on every server or open the
-	// log of another stream's partition.
+	// log of another stream's partition. The same goes for a subject or queue
+	// group the partition leader can't subscribe to NATS with.
 	ids := make(map[int32]struct{}, len(req.Stream.Partitions))
 	for _, partition := range req.Stream.Partitions {
+		if !isValidSubject(partition.Subject) {
+			return status.Newf(codes.InvalidArgument,
+				"partition %d has an invalid subject", partition.Id)
+		}
+		if strings.ContainsAny(partition.Group, " \t\r\n") {
+			return status.Newf(codes.InvalidArgument,
+				"partition %d has an invalid queue group", partition.Id)
+		}
 		if partition.Stream != req.Stream.Name {
 			return status.Newf(codes.InvalidArgument,
 				"partition %d belongs to stream %s, not %s",
